@@ -81,7 +81,10 @@ def run_one(case):
             # a call that RETURNS must return min(n, available): an injected I/O error or engine failure makes the unchanged
             # library raise or fall back to the other transport, never return a short list.  Only a solver that answered
             # "unknown" ends the iteration early without an error (existing, documented behaviour of compute_solutions)
-            faulted = bool(w.fault_fired.get("peer.unknown")) or bool(w.counters.get("peer.limit-reached"))
+            # (an *injected* "unknown" only: the shipped library passes its solver no limit, so a solver that gives up because
+            # of a limit the library itself set, after which the library hands back a shorter list as if it were complete, is
+            # not excused - that is the count clause of C09 failing)
+            faulted = bool(w.fault_fired.get("peer.unknown"))
             over = {k: v for k, v in L.items() if k in V and v > V[k]}
             if over:
                 k0 = sorted(over, key=repr)[0]
